@@ -41,7 +41,7 @@ def _tags(line):
     return [t.strip() for t in m.group(1).split(',') if t.strip()], m.group(2).strip()
 
 
-def generate(repo_src_dir, template_paths):
+def generate(repo_src_dir, template_paths, vacuity=False):
     res = GenResult()
     index = {}
     srcs = {}
@@ -211,6 +211,9 @@ def generate(repo_src_dir, template_paths):
                     # loop specs: emit with line info; do it by splitting body around insertion points
                     body = rsx.insert_loop_specs(body, {k: '/*@LOOP%d@*/' % k for k in loops}, log)
                     emit('{', section='body', **info)
+                    if vacuity:
+                        # vacuity guard: this assertion MUST fail; if it verifies the requires clause is unsatisfiable
+                        emit('        proof { assert(false); }', section='vacuity', **info)
                     for hl in sections['head']:
                         emit(hl, section='head', **info)
                     base_line = it.line_start + it.sig.count('\n')
